@@ -344,6 +344,17 @@ pub fn mv_poly<F: PrimeField>(spec: &PolySpec, nv: usize, rng: &mut ChaCha20Rng)
                 .collect();
             MvPoly::from_coefficients_vec(nv, terms)
         }
+        "unilast" => {
+            // only monomials in the LAST variable: same degree and number of terms as "uni", other support
+            let terms = (0..=deg)
+                .map(|e| (nonzero(rng), sparse_term(&{
+                    let mut v = vec![0; nv];
+                    v[nv - 1] = e;
+                    v
+                })))
+                .collect();
+            MvPoly::from_coefficients_vec(nv, terms)
+        }
         "mixed" => {
             // a few genuinely mixed monomials of the top degree plus a constant
             let mut terms = vec![(nonzero(rng), SparseTerm::new(vec![]))];
